@@ -75,7 +75,26 @@ func codecMain(args []string) {
 	sum := newSum("codec", cf.seed, "valid stream: every registered zorums method x direction x generated message x metadata (id, status code, text incl. non-ASCII, details); "+
 		"malformed stream: truncation at every byte, length prefixes off by one / huge / 10-byte varints, method field naming unknown / message / service / enum / file entities, random bytes; "+
 		"distinct non-trivial = distinct (direction, generator class, outcome class, descriptor kind, framing result sign) tuples other than a plain valid round trip")
+	// in chunks, so that the memory held (frames, driver lines) stays bounded however many cases are asked for
+	const chunk = 40000
+	total := 0
 	r := rng(cf.seed, "codec")
+	for left := cf.count; left > 0 && !sum.tooMany(); left -= chunk {
+		c := cf
+		c.count = left
+		if c.count > chunk {
+			c.count = chunk
+		}
+		total += codecChunk(c, rand.New(rand.NewSource(r.Int63())), sum)
+		if cf.replay != "" {
+			break
+		}
+	}
+	sum.Cases = total
+	sum.finish(start, cf.out)
+}
+
+func codecChunk(cf common, r *rand.Rand, sum *sumT) int {
 	codec := gorums.NewCodec()
 	svc := dev.File_zorums_proto.Services().Get(0)
 	var methods []protoreflect.MethodDescriptor
@@ -399,8 +418,7 @@ func codecMain(args []string) {
 		}
 		sum.count("status-roundtrip")
 	}
-	sum.Cases = len(decs) + len(encLines)
-	sum.finish(start, cf.out)
+	return len(decs) + len(encLines)
 }
 
 func trunc(s string) string {
